@@ -3,10 +3,13 @@
 import glob, os, sys
 sys.path.insert(0, os.path.dirname(os.path.dirname(os.path.abspath(__file__))))
 from simkit import sensitivity
-props = sys.argv[1:] or ["C03", "C14", "C20", "C10", "C12"]
+props = [a for a in sys.argv[1:] if not a.startswith("--")] or ["C03", "C14", "C20", "C10", "C12"]
+only = [a[7:] for a in sys.argv[1:] if a.startswith("--only=")]
 bad = 0
 for p in sorted(glob.glob("/verif/benign/*/patch.diff")):
     name = os.path.basename(os.path.dirname(p))
+    if only and not any(o in name for o in only):
+        continue
     for prop in props:
         if name.startswith(prop + "-"):
             continue
@@ -19,6 +22,6 @@ for p in sorted(glob.glob("/verif/benign/*/patch.diff")):
                 break
         print("%-12s %-4s %-46s %5.1fs %s" % (v, prop, name, dt, line))
         sys.stdout.flush()
-        if v != "QUIET":
+        if v not in ("QUIET", "STALE"):
             bad += 1
 print("cross-benign: %d problems" % bad)
